@@ -148,6 +148,7 @@ func (h *Sources) Redo() {
 	line.pos--
 
 	if line.pos < 1 {
+		line.pos = 0
 		return
 	}
 
